@@ -284,6 +284,25 @@ reg(["C17"], H("fixed::v5_common_2", unwind=4, feature="off", timeout=900, mem_g
     desc="feature off: common conversion unchanged (V5)", bounds={"records": 2}, assumptions=[_OFF]))
 
 
+# ---------------------------------------------------------------- per-version entry points (real)
+for _l, _tier in ((16, "thorough"), (17, "quick"), (22, "quick"), (3, "thorough"), (29, "thorough")):
+    reg(["C02", "C11", "C14", "C05", "C01"], H("w::wr_ipfix_entry_%d" % _l, unwind=6, timeout=1500, mem_gb=12, tier=_tier,
+        desc="IPFixParser::parse, message length %d (written), no decodable set: remaining starts exactly at max(length,16) (no skipping/alignment), Err iff the window exceeds the buffer, caches untouched" % _l,
+        bounds={"bytes": 26, "length": _l, "sets": "one undecodable data set (id 300)"}))
+for _nm, _w, _tier in (("c0_s3", "count 0 + 3 stray bytes", "thorough"), ("c2_s0", "count 2, nothing after the header", "thorough"),
+                       ("c2_s2", "count 2 + 2 stray bytes", "thorough"), ("c1_s3", "count 1 + 3 stray bytes", "quick")):
+    reg(["C02", "C11", "C14", "C04", "C01"], H("w::wr_v9_entry_" + _nm, unwind=6, timeout=1500, mem_gb=12, tier=_tier,
+        desc="V9Parser::parse, %s: stray bytes shorter than a flowset header are never absorbed (Err) and unconsumed bytes are handed back" % _w,
+        bounds={"shape": _w + " (count written)"}))
+for _nm, _w, _tier in (("v5_entry_1", "V5 count 1 + 3 trailing bytes", "quick"), ("v5_entry_1_cut", "V5 count 1 cut by 1 byte", "thorough"),
+                       ("v7_entry_1", "V7 count 1 + 3 trailing bytes", "quick"), ("v7_entry_0", "V7 count 0 + 3 trailing bytes", "thorough")):
+    reg(["C02", "C11", "C14", "C01"], H("w::wr_" + _nm, unwind=4, timeout=1500, mem_gb=12, tier=_tier,
+        desc="%s through the V5Parser/V7Parser entry: remaining is the exact suffix, truncation => Partial with the right version" % _w,
+        bounds={"shape": _w + " (count written)"}))
+reg(["C09", "C01"], H("ser::ser_v9_short_length", unwind=5, timeout=900, mem_gb=8,
+    desc="V9: template / options-template flowset with length field 0..3 re-exports as its 4 header bytes", bounds={"length": "0..=3"}))
+
+
 def all_harnesses():
     return list(_ALL)
 
